@@ -5,6 +5,7 @@ import PyPhysim.Proofs.C06Pointwise
 import PyPhysim.Proofs.C06Copy
 import PyPhysim.Proofs.C06Append
 import PyPhysim.Proofs.C06CombineView
+import PyPhysim.Proofs.C06Order
 
 /-!
 # C06 — combining simulation results is independent of how repetitions were grouped
@@ -665,6 +666,51 @@ theorem combine_never_mutates_operands (m : Mach) (s1 s2 : Nat) :
       ∧ (∀ l, l < m.lists.length → (combine m s1 s2).1.lists[l]? = m.lists[l]?)
       ∧ (∀ j, j < m.sims.length → (combine m s1 s2).1.sims[j]? = m.sims[j]?) :=
   combine_frame m s1 s2
+
+/-! ## the insertion order of the result names is not part of the value of a result set -/
+
+/-- a result set whose results were added in another order (`reorderDict`, all names listed)
+    answers every lookup by name exactly as before -/
+theorem reorder_keeps_lookups (d : Dict) (names : List String) (nm : String) (h : nm ∈ names) :
+    dictGet? (reorderDict d names) nm = dictGet? d nm := by
+  rw [dictGet?_reorderDict]; simp [h]
+
+/-- **`combine_simulation_results` pairs the operands' results by NAME**: replacing either
+    operand by one that answers the same lookups (e.g. the same results added in another order)
+    yields exactly the same new results for every name and combination. -/
+theorem combine_pairs_results_by_name (m : Mach) (d1 d1' d2 d2' : Dict) (v1 v2 combos : List (List Rat))
+    (names : List String) (h1 : ∀ k, dictGet? d1' k = dictGet? d1 k) (h2 : ∀ k, dictGet? d2' k = dictGet? d2 k) :
+    combineRows m d1' d2' v1 v2 combos names = combineRows m d1 d2 v1 v2 combos names :=
+  combineRows_congr h1 h2 m v1 v2 combos names
+
+/-- **`merge_all_results` finds the results of `other` by NAME**: the validation pass and the merge
+    loop are the same for every `other` that answers the same lookups. -/
+theorem merge_all_pairs_results_by_name (m : Mach) (ds od od' : Dict) (names : List String)
+    (h : ∀ k, dictGet? od' k = dictGet? od k) :
+    checkNames ds od' m names = checkNames ds od m names
+      ∧ mergeNames ds od' m names = mergeNames ds od m names :=
+  ⟨checkNames_congr h m names, mergeNames_congr h m names⟩
+
+/-- two operands holding the same-typed results `a`, `b`, added in opposite orders: the
+    combination merges `a` with `a` and `b` with `b` (a positional pairing would raise, or under
+    `python -O` silently merge `a` with `b`), gives the same results as with operand 2 in the
+    order of operand 1, and `merge_all_results` likewise -/
+theorem result_order_witness :
+    let r := fun (nm : String) (v : Rat) => foldUpd (fresh nm .sum false 0) [⟨v, none⟩]
+    let m : Mach :=
+      { res := [r "a" 1, r "b" 2, r "b" 30, r "a" 40], lists := [[0], [1], [2], [3]],
+        sims := [⟨[("a", 0), ("b", 1)], ⟨[], []⟩⟩, ⟨[("b", 2), ("a", 3)], ⟨[], []⟩⟩] }
+    (combine m 0 1).2 = none
+      ∧ view (combine m 0 1).1 2
+          = [("a", [foldUpd (fresh "a" .sum false 0) [⟨1, none⟩, ⟨40, none⟩]]),
+             ("b", [foldUpd (fresh "b" .sum false 0) [⟨2, none⟩, ⟨30, none⟩]])]
+      ∧ view (combine (reorderSim m 1 ["a", "b"]) 0 1).1 2 = view (combine m 0 1).1 2
+      ∧ (mergeAll m 0 1).2 = none
+      ∧ view (mergeAll m 0 1).1 0
+          = [("a", [foldUpd (fresh "a" .sum false 0) [⟨1, none⟩, ⟨40, none⟩]]),
+             ("b", [foldUpd (fresh "b" .sum false 0) [⟨2, none⟩, ⟨30, none⟩]])]
+      ∧ view (mergeAll (reorderSim m 1 ["a", "b"]) 0 1).1 0 = view (mergeAll m 0 1).1 0 := by
+  decide +kernel
 
 /-! ## non-vacuity: the hypotheses above are satisfiable by non-trivial values -/
 
